@@ -29,6 +29,8 @@ SCRIPTS_QUICK = [
     # drained second must still be found (a waiter that can time out would hide a lost entry behind its time-out)
     "W32:%d:0:-1|W32:%d:0:-1|N:%d:1;N:%d:1" % (A, B, A, B),
     "W32:%d:0:-1|W32:%d:0:-1|N:%d:1;N:%d:1" % (A, B, B, A),
+    # the most recent waiter of an address leaves first (its time-out), an older one stays, a new one arrives: all still counted
+    "W32:%d:0:-1|W32:%d:0:5;W32:%d:0:-1|N:%d:2;N:%d:2" % (A, A, A, A, A),
     # EVERY negative timeout means "no timeout", not only -1
     "W32:%d:0:-2|N:%d:1" % (A, A),
     "W64:%d:0:-9223372036854775808|W32:%d:0:-1000000000|N:%d:2" % (C, C, C),
@@ -191,6 +193,13 @@ def main():
                         # ... and a notify inside the time-out still finds the waiter
                         ("W32:64:0:900000000|D:450;U:64:1:1", "long", "100,250")]
 
+        # many addresses with a sleeping waiter each at the same time (a table that grows or rehashes does it now), drained in
+        # insertion order, in reverse and interleaved: every waiter is found again
+        for nadr in (36, 48):
+            adrs = [64 + 4 * k for k in range(nadr)]
+            for order in (adrs, adrs[::-1], adrs[::2] + adrs[1::2]):
+                real_scripts.append(("|".join("W32:%d:0:-1" % a_ for a_ in adrs) + "|D:400;" + ";".join("U:%d:1:1" % a_ for a_ in order), "many"))
+
         def run_real(sk):
             s, kind = sk[0], sk[1]
             rc_, so_, se_ = run([real, s], timeout=30, env={"FX_SPURIOUS": sk[2]} if len(sk) > 2 else None)
@@ -221,6 +230,11 @@ def main():
                     if kind == "zero" and (e["res"] != 2 or dt > 1000):
                         v.deviation("futex:real:zero-timeout", {"script": s, "result": e["res"], "after_ms": dt})
             woken = sum(e["res"] for e in evs if e["ev"] == "ret" and e["op"] == "notify")
+            if kind == "many":
+                res = [e["res"] for e in evs if e["ev"] == "ret" and e["op"].startswith("wait")]
+                if len(res) != s.count("W32") or any(r_ != 0 for r_ in res) or woken != len(res):
+                    v.deviation("futex:real:many-addresses", {"waiters": s.count("W32"), "wait_results": res, "woken_in_total": woken})
+                continue                       # (more threads than the trace specification's constant: judged here)
             if kind in ("long", "long2") and woken != (1 if kind == "long" else 2):
                 v.deviation("futex:real:notify-count", {"script": s, "woken_in_total": woken})
             h = history_of({"events": evs, "end": {"outcome": "complete"}})
